@@ -12,9 +12,14 @@ PROP = dict(
             # (specs/ResponseRules.tla, notes/ResponseRules.md): invariants + one CASE per site and per (site, request)
             dict(module="ResponseRules", cfg=dict(quick="ResponseRules_quick.cfg", thorough="ResponseRules_thorough.cfg"), emit=True,
                  workers=8, timeout=dict(quick=300, thorough=1200)),
+            # extension: the front door of the server - Server.ServeHTTP / serveHTTP step by step before and after the chain
+            # (specs/ServerFront.tla, notes/ServerFront.md): invariants + one CASE per request head
+            dict(module="ServerFront", cfg=dict(quick="ServerFront_quick.cfg", thorough="ServerFront_thorough.cfg"), emit=True,
+                 workers=8, coverage=True, timeout=dict(quick=300, thorough=900)),
         ],
         go=[dict(pkg="c12", test="TestC12", timeout=dict(quick=600, thorough=3000)),
-            dict(pkg="cx12rules", test="TestCx12Rules", timeout=dict(quick=300, thorough=1200))],
+            dict(pkg="cx12rules", test="TestCx12Rules", timeout=dict(quick=300, thorough=1200)),
+            dict(pkg="cx12front", test="TestCx12Front", timeout=dict(quick=300, thorough=900))],
         traces=[dict(name="middlewaretrace", module="MiddlewareTrace", cfg="MiddlewareTrace.cfg", timeout=900),
                 dict(name="middlewaretrace_selftest", module="MiddlewareTrace", cfg="MiddlewareTraceNeg.cfg", timeout=300)],
         exhaustive=dict(quick=True, thorough=True),
